@@ -46,7 +46,7 @@ def streams():
 
 # ---- part 1: real command line ------------------------------------------------------
 
-def run_cli(mode, text, supress, seed, status=0, workdir=None, parent_wd=None):
+def run_cli(mode, text, supress, seed, status=0, workdir=None, parent_wd=None, options=()):
     d = workdir
     path = os.path.join(d, 'in.log')
     with open(path, 'w') as f:
@@ -56,7 +56,7 @@ def run_cli(mode, text, supress, seed, status=0, workdir=None, parent_wd=None):
     if parent_wd is not None:
         env['WAYLAND_DEBUG'] = parent_wd      # whatever wayland-debug itself was started with, the program gets 1
     main_py = os.path.join(sut.REPO, 'main.py')
-    opts = ['--supress'] if supress else []
+    opts = (['--supress'] if supress else []) + list(options)
     if mode == 'file':
         argv, stdin = ['/venv/bin/python', main_py] + opts + ['-l', path], 'q\n'
     elif mode == 'pipe':
@@ -82,7 +82,9 @@ def eval_modes(case):
             for mode in ('file', 'pipe', 'run'):
                 for seed in case['seeds']:
                     out, err, rc, marker = run_cli(mode, text, case['supress'], seed, status=case['status'], workdir=d,
-                                                   parent_wd=case.get('parent_wd'))
+                                                   parent_wd=case.get('parent_wd'), options=case.get('options', ()))
+                    if case.get('stdout_only'):
+                        err = ''      # with -b, pipe mode says on standard error that it cannot halt: the display is standard output
                     outs[(mode, seed)] = (out, err)
                     want_rc = case['status'] if mode == 'run' else 0
                     if rc != want_rc:
@@ -135,6 +137,20 @@ def eval_run_transparency(case):
                     la, lb = pf.stdout.split('\n'), pr.stdout.split('\n')
                     k = next((i for i, (x, y) in enumerate(zip(la, lb)) if x != y), min(len(la), len(lb)))
                     V.append(Violation('modes.split_write', case, {'file_mode': la[k:k + 2], 'run_mode': lb[k:k + 2]}))
+            elif case['what'] == 'program_with_blank':
+                # the program's own path contains a blank (and a quote); it is started as named, with or without arguments
+                pdir = os.path.join(d, 'My "App')
+                os.makedirs(pdir)
+                prog = os.path.join(pdir, 'show me')
+                with open(prog, 'w') as f:
+                    f.write('#!/bin/sh\nprintf "%s\\n" "$0" "$@" > "' + os.path.join(d, 'seen') + '"\nexit 9\n')
+                os.chmod(prog, 0o755)
+                p = subprocess.run(['/venv/bin/python', main_py, '-r', prog] + case['words'], input='q\n', capture_output=True, text=True,
+                                   env=env, cwd=d, timeout=60)
+                seen = open(os.path.join(d, 'seen')).read().split('\n')[:-1] if os.path.exists(os.path.join(d, 'seen')) else None
+                if seen != [prog] + case['words'] or p.returncode != 9:
+                    V.append(Violation('modes.run_arguments', case, {'program': prog, 'program_saw': seen, 'returncode': p.returncode,
+                                                                     'stderr': p.stderr[-300:]}))
             elif case['what'] == 'lingering':
                 # the program closes its standard error and exits well over a second later: its output and its status count
                 p = subprocess.run(['/venv/bin/python', main_py, '-r', '/bin/sh', '-c',
@@ -165,11 +181,13 @@ def gen_run_transparency(tier):
     for c in cuts:
         yield {'what': 'split_write', 'cut': c}
     for words in (['-g'], ['--gdb', 'x'], ['-lg'], ['-r', '-p'], ['a b', '-Cg', '--run'], ['-f', 'wl_pointer', '-l', 'file'], [],
-                  ['--title', '', '-f', 'x'], ['', ''], ['x', '']):
+                  ['--title', '', '-f', 'x'], ['', ''], ['x', ''], ['--flag', '--', '-r', 'positional', '--'], ['--']):
         yield {'what': 'arguments', 'words': words}
     # a bare program name is looked up on PATH by the system and reaches the program as typed
     yield {'what': 'arguments', 'words': ['x'], 'program': 'sh'}
     yield {'what': 'lingering', 'seconds': 1.4}
+    yield {'what': 'program_with_blank', 'words': []}
+    yield {'what': 'program_with_blank', 'words': ['one two']}
 
 
 def gen_modes(tier):
@@ -177,6 +195,10 @@ def gen_modes(tier):
     for name in streams():
         for supress in (False, True):
             yield {'stream': name, 'supress': supress, 'seeds': seeds, 'status': 0}
+    # the same display also under a filter and a breakpoint matcher (file and run mode mark the matching messages and
+    # prompt at the end; pipe mode has no prompt to halt at but shows the same lines)
+    for options in (['-f', 'wl_surface, wl_registry'], ['-b', 'wl_surface'], ['-f', '! wl_registry', '-b', '.get_registry']):
+        yield {'stream': 'clean', 'supress': False, 'seeds': [0], 'status': 0, 'options': options, 'stdout_only': True}
     for wd in ('0', 'server', ''):
         yield {'stream': 'clean', 'supress': False, 'seeds': [0], 'status': 0, 'parent_wd': wd}
     statuses = [1, 2, 37, 99, 126, 127, 255] if tier == 'quick' else list(range(1, 256))
